@@ -511,6 +511,27 @@ void dhp_family()
         p.push_back( Ins{DETACH,0,0,0} );
         add<cds::gc::DHP>( "seq-grow-g" + std::to_string( g ), c, { p }, {}, 0, 0, 0, 200000 );
     }
+    // a thread detaches with a second (empty) retired block while 200 of its retired objects are still guarded by somebody else:
+    // free_thread_data() trims the empty block; the record and the trimmed block are then reused by two other threads.
+    // Entirely sequential (every step is in the prologue / epilogue, which run thread after thread).
+    {
+        Cfg c; c.dhp = true; c.initial = 4;
+        // t0 guards o0..o199 and o256..o311 throughout
+        Prog t0 = { {ATTACH,0,0,0}, {PROTECTN,0,200,0}, {PROTECTN,200,56,256}, {BEGIN,0,0,0}, {END,0,0,0} };
+        for ( int k = 0; k < 256; ++k ) t0.push_back( Ins{RELEASE,k,0,0} );
+        t0.push_back( Ins{DETACH,0,0,0} );
+        // t1 retires 256 objects of which 200 survive the pass: an empty second block is appended; detach() trims it
+        Prog t1 = { {ATTACH,0,0,0}, {BULK,0,256,0}, {DETACH,0,0,0}, {BEGIN,0,0,0}, {END,0,0,0} };
+        // t2 takes over t1's record, fills the first block with 56 guarded objects (the pass frees nothing, the array is extended and
+        // the cursor moves into the new block), then retires 50 unguarded objects
+        Prog t2 = { {ATTACH,0,0,0}, {BULK,256,56,0}, {BULK,312,50,0}, {SCAN,0,0,0}, {BEGIN,0,0,0}, {END,0,0,0}, {SCAN,0,0,0}, {DETACH,0,0,0} };
+        // t3 gets a new record (its first block is the one t1's detach released) and retires enough to go through two blocks
+        Prog t3 = { {ATTACH,0,0,0}, {BULK,362,300,0}, {BEGIN,0,0,0}, {END,0,0,0}, {SCAN,0,0,0}, {DETACH,0,0,0} };
+        add<cds::gc::DHP>( "seq-detach-trim", c, { t0, t1, t2, t3 }, {}, 0, 0, 0, 400000 );
+        // t3 first, t2's retires after it
+        Prog t2b = { {ATTACH,0,0,0}, {BEGIN,0,0,0}, {END,0,0,0}, {BULK,256,56,0}, {BULK,312,50,0}, {SCAN,0,0,0}, {DETACH,0,0,0} };
+        add<cds::gc::DHP>( "seq-detach-trim-late", c, { t0, t1, t2b, t3 }, {}, 0, 0, 0, 400000 );
+    }
     // multi-block retired list scanned while a reader protects an element of the first block
     {
         Cfg c; c.dhp = true; c.initial = 4;
